@@ -252,7 +252,7 @@ func (ex *Exec) typed(st *State, v Val) {
 		case "int":
 			ex.fact(inRange(x, l.T))
 		case "str":
-			ex.fact(And(Ge(app(SInt, "slen", x), Int(0)), Le(app(SInt, "slen", x), Int(1<<62)), Implies(Eq(app(SInt, "slen", x), Int(0)), Eq(x, Int(0)))))
+			ex.fact(And(Ge(app(SInt, "slen", x), Int(0)), Le(app(SInt, "slen", x), Int(1<<48)), Implies(Eq(app(SInt, "slen", x), Int(0)), Eq(x, Int(0)))))
 		case "ref", "arr":
 			ex.fact(Ge(x, Int(0)))
 			if st != nil {
@@ -342,7 +342,7 @@ func (ex *Exec) strConst(s string) Term {
 
 func (ex *Exec) freshStr(st *State, base string) Term {
 	t := ex.vc.fresh(base, SInt)
-	ex.fact(And(Ge(app(SInt, "slen", t), Int(0)), Le(app(SInt, "slen", t), Int(1<<62)), Implies(Eq(app(SInt, "slen", t), Int(0)), Eq(t, Int(0)))))
+	ex.fact(And(Ge(app(SInt, "slen", t), Int(0)), Le(app(SInt, "slen", t), Int(1<<48)), Implies(Eq(app(SInt, "slen", t), Int(0)), Eq(t, Int(0)))))
 	return t
 }
 
@@ -435,6 +435,8 @@ type retRec struct {
 }
 
 type Frame struct {
+	// ownerVal: the struct a field function value was loaded from (bound as "owner" in its contract)
+	ownerVal *Val
 	ex      *Exec
 	fn      *ssa.Function
 	vals    map[ssa.Value]Val
